@@ -59,3 +59,19 @@ reg("C02", "c02", [("solvers", "plain", 3), ("op", "plain", 1)], "exploration",
                "fields), through conelp/lp/socp/sdp and op.solve.",
     level_note="Trusts numpy and vlib/ref_cone.py.",
     design_ref="4/C02")
+
+reg("C03", "c03", [("qp", "plain", 1)], "exploration",
+    rule=CONE_GEN + "here as planted solvable QPs: P = BB' of any rank 0..n (junk in the strictly upper triangle), "
+         "q = -(P x0 + G'z0 + A'y0); cone structure incl. the problem without inequalities (G omitted or 0 rows); "
+         "configuration = coneqp/qp x kktsolver (default, ldl, ldl2, chol, chol2, numpy callable, wrapped kkt_ldl) x "
+         "dense/sparse P,G,A x P/G/A as Python operators x initvals subsets x options. Every 'optimal' result is "
+         "re-judged in numpy. Non-trivial = optimal after >=1 iteration with rank(P)<n or a q/s block >=2, or the "
+         "no-inequality branch with p>=1; distinct = SHA-1 of case JSON.",
+    assumptions=["rank([P;G;A])=n and rank(A)=p verified by SVD in the generator; others skipped and counted",
+                 "exceptions are judged by C05/C10"],
+    technique="property-based testing (Hypothesis) with an independent numpy QP-KKT oracle",
+    level_text="Each generated coneqp/qp solve that claims 'optimal' is checked against the caller's P,q,G,h,A,b "
+               "(stationarity with the lower triangle of P only, primal residual, cone membership, the three "
+               "documented gap criteria, every accuracy field); ~2e4 quick / 4e5 thorough solves.",
+    level_note="Trusts numpy and vlib/ref_cone.py.",
+    design_ref="4/C03")
